@@ -80,7 +80,8 @@ pub fn expected(book: &umya::Spreadsheet) -> Value {
             }
             let v = c.get_value().to_string();
             let f = c.get_formula().to_string();
-            if v.is_empty() && f.is_empty() {
+            // a blank cell carries nothing; a text cell holding "" is a value like any other
+            if v.is_empty() && f.is_empty() && c.get_data_type() != "s" {
                 continue;
             }
             let kind = match c.get_data_type() {
